@@ -15,11 +15,11 @@ import (
 // Kind "violation": the disagreement is in a quantity the property talks about.
 // Kind "nonconformance": mechanism-level difference only (reported, never an alarm).
 type Finding struct {
-	Kind   string `json:"kind"`
-	Sig    string `json:"sig"`
-	Detail string `json:"detail"`
+	Kind   string   `json:"kind"`
+	Sig    string   `json:"sig"`
+	Detail string   `json:"detail"`
 	Path   []string `json:"path,omitempty"`
-	Count  int    `json:"count"`
+	Count  int      `json:"count"`
 }
 
 // Report accumulates what a harness run covered; written as JSON to $VERIF_OUT.
@@ -62,8 +62,10 @@ func (r *Report) add(kind, sig, detail string, path []string) {
 	r.findings[k] = &Finding{Kind: kind, Sig: sig, Detail: detail, Path: path, Count: 1}
 }
 
-func (r *Report) Violation(sig, detail string, path []string)      { r.add("violation", sig, detail, path) }
-func (r *Report) Nonconformance(sig, detail string, path []string) { r.add("nonconformance", sig, detail, path) }
+func (r *Report) Violation(sig, detail string, path []string) { r.add("violation", sig, detail, path) }
+func (r *Report) Nonconformance(sig, detail string, path []string) {
+	r.add("nonconformance", sig, detail, path)
+}
 
 func (r *Report) Sample(v any) {
 	r.mu.Lock()
